@@ -27,7 +27,8 @@ def obsAll (t : Forest) : List String :=
   [ s!"cplx {showCplx t}",
     s!"n {(toList t).length} dim {dimOf t} bydim {showNats (byDim t)}",
     s!"verts {showNats (rootLabels t)}",
-    s!"skel1 {showSimplices (((toList t).map (·.1)).filter (·.length ≤ 2))}" ] ++
+    s!"skel1 {showSimplices (((toList t).map (·.1)).filter (·.length ≤ 2))}",
+    s!"skel2 {showSimplices (((toList t).map (·.1)).filter (·.length ≤ 3))}" ] ++
   (toList t).map (fun (w, f) => obsSimplex t w f) ++ ["nonmem 0", "eq 1"]
 
 def b (x : Bool) : String := if x then "1" else "0"
